@@ -25,6 +25,10 @@ type queryPacket struct {
 	bindPacket        *BindPacket
 	executePacket     *ExecutePacket
 	simpleQueryPacket string
+	// query text of the prepared statement at the moment of Execute. Registered statement may be replaced
+	// (and its text zeroized) by next Parse packet with the same name (pipelined unnamed statements)
+	// before the database returned data rows for this Execute
+	preparedStatementText string
 }
 
 func newQueryPacket(query string) queryPacket {
@@ -32,7 +36,8 @@ func newQueryPacket(query string) queryPacket {
 }
 
 func newExtendedQueryPacket(preparedStatement *PgPreparedStatement, bindPacket *BindPacket, executePacket *ExecutePacket) queryPacket {
-	return queryPacket{preparedStatement: preparedStatement, bindPacket: bindPacket, executePacket: executePacket}
+	return queryPacket{preparedStatement: preparedStatement, bindPacket: bindPacket, executePacket: executePacket,
+		preparedStatementText: preparedStatement.QueryText()}
 }
 
 // String return SimpleQuery or Prepared with statement name for log purposes
@@ -46,6 +51,9 @@ func (queryPacket queryPacket) String() string {
 // GetSQLQuery returns SQL query. If packet is SimpleQuery then returns query, otherwise returns query from the Parse packet
 func (queryPacket queryPacket) GetSQLQuery() string {
 	if queryPacket.executePacket != nil {
+		if queryPacket.preparedStatementText != "" {
+			return queryPacket.preparedStatementText
+		}
 		return queryPacket.preparedStatement.QueryText()
 	}
 	return queryPacket.simpleQueryPacket
